@@ -184,6 +184,13 @@ structure Obs where
   fin : End
   deriving Repr, DecidableEq
 
+instance : DecidableEq (Except Known Obs) := fun a b =>
+  match a, b with
+  | .ok x, .ok y => if h : x = y then isTrue (by rw [h]) else isFalse (by intro e; cases e; exact h rfl)
+  | .error x, .error y => if h : x = y then isTrue (by rw [h]) else isFalse (by intro e; cases e; exact h rfl)
+  | .ok _, .error _ => isFalse (by intro e; cases e)
+  | .error _, .ok _ => isFalse (by intro e; cases e)
+
 def Obs.cons (h : Nat) (o : Obs) : Obs := { o with trace := h :: o.trace }
 def Obs.prepend (t : List Nat) (o : Obs) : Obs := { o with trace := t ++ o.trace }
 
@@ -255,9 +262,9 @@ def next (E : Env π α) (S : Stacks α) (chk : Bool) :
       | .ok (tr, .fall m' p' cur') =>
         (next E S chk fuel m' p' cur' (matched || !r.use)).map (Obs.prepend tr)
 
-/-- number of routes in all stacks + 1 -/
-def Stacks.fuel (E : Env π α) (S : Stacks α) : Nat :=
-  ((List.range E.nMethods).map fun m => (S.stack m).length).sum + 1
+/-- `app.routesCount + 1`: more than the length of any method stack (`InvS.len`), hence more than
+the number of times `next` can advance within one method -/
+def Stacks.fuel (S : Stacks α) : Nat := S.count + 1
 
 /-- `requestHandler`: a fresh context (`indexRoute = -1`, `matched = false`) enters `next`. -/
 def dispatchS (E : Env π α) (S : Stacks α) (chk : Bool) (fuel : Nat) (m : Nat) (p : π) : Except Known Obs :=
@@ -266,12 +273,12 @@ def dispatchS (E : Env π α) (S : Stacks α) (chk : Bool) (fuel : Nat) (m : Nat
 /-- The model: registration, then a request `(m, p)`. -/
 def dispatch (E : Env π α) (regs : List (Reg α)) (m : Nat) (p : π) : Except Known Obs :=
   let S := build true regs
-  dispatchS E S false (S.fuel E) m p
+  dispatchS E S false S.fuel m p
 
 /-- The same run with the known-finding instrumentation on. -/
 def dispatchK (E : Env π α) (regs : List (Reg α)) (m : Nat) (p : π) : Except Known Obs :=
   let S := build true regs
-  dispatchS E S true (S.fuel E) m p
+  dispatchS E S true S.fuel m p
 
 /-! ## Concrete normalisation (what the driver instantiates `Env`/`Reg.key` with) -/
 
